@@ -206,8 +206,8 @@ func genOp(t *rapid.T, cfg C07Config) Op {
 		op.B = rapid.IntRange(0, 2).Draw(t, "fee-sel")
 		op.Now = rapid.IntRange(0, 2).Draw(t, "submit-now") == 0
 	case "split":
-		op.N = rapid.IntRange(2, 13).Draw(t, "parts")
-		op.A = rapid.IntRange(0, 4).Draw(t, "min-sel")
+		op.N = rapid.IntRange(0, 13).Draw(t, "parts")  // 0 and 1 are outside SplitUTXO's domain (error path)
+		op.A = rapid.IntRange(0, 5).Draw(t, "min-sel") // 5: zero minAmount (error path)
 		op.B = rapid.IntRange(0, 3).Draw(t, "raw-n")
 	case "reorg":
 		op.N = rapid.IntRange(1, 4).Draw(t, "depth")
@@ -2197,15 +2197,21 @@ func (wd *world) opSplit(op Op, step int) error {
 	if err != nil {
 		return err
 	}
-	n := clampInt(op.N, 2, 13)
-	if op.B%4 != 0 && wd.cfg.DefragThreshold >= 2 && n > wd.cfg.DefragThreshold {
-		n = wd.cfg.DefragThreshold
+	n := clampInt(op.N, 0, 13)
+	if op.B%4 != 0 {
+		// stay inside the documented domain: 2 <= n <= defrag threshold
+		n = max(n, 2)
+		if wd.cfg.DefragThreshold >= 2 && n > wd.cfg.DefragThreshold {
+			n = wd.cfg.DefragThreshold
+		}
 	}
 	sorted := sortedByValue(pre.S)
 	var minAmount types.Currency
-	switch modInt(op.A, 5) {
+	switch modInt(op.A, 6) {
 	case 0:
 		minAmount = oneH
+	case 5:
+		// zero: refused ("minAmount must be greater than zero") in raw mode
 	case 1:
 		minAmount = types.Siacoins(1)
 	case 2:
@@ -2219,8 +2225,11 @@ func (wd *world) opSplit(op Op, step int) error {
 	default:
 		minAmount = types.Siacoins(100)
 	}
-	if minAmount.IsZero() {
+	if minAmount.IsZero() && op.B%4 != 0 {
 		minAmount = oneH
+	}
+	if n < 2 || minAmount.IsZero() {
+		wd.cs.Class("split=argument-outside-the-domain")
 	}
 	where := fmt.Sprintf("step %d SplitUTXO(%d, %v)", step, n, minAmount)
 	tB := time.Now() // the before/after comparison spans [tB, t2]
